@@ -113,7 +113,7 @@ Proof. exact project_and_group_by_empty. Qed.
 Print Assumptions C11_empty.
 
 (* ---- refuted ------------------------------------------------------------------------------------------------------ *)
-Definition fixes_all : pg_fixes := mkFixes true true true.
+Definition fixes_all : pg_fixes := mkFixes true true true true.
 Definition kv (k : cell) : row := [(1%N, k); (2%N, CL (int_lit 1))].
 Definition count_aaps : list aap := [mkAap 1%N 1%N AccNone; mkAap 2%N 3%N AccCount].
 Definition txt (s : string) : cell := CL (text_lit (list_byte_of_string s)).
@@ -147,14 +147,14 @@ Print Assumptions C11_float_precision_refuted.
 
 (* sum over an empty result: Rows()[0] panics (code as found) *)
 Theorem C11_empty_sum_refuted :
-  project_and_group_by (mkFixes false true true) [1%N] [mkProj 1%N None OpNone false; mkProj 2%N (Some 3%N) OpSum false]
+  project_and_group_by (mkFixes false true true true) [1%N] [mkProj 1%N None OpNone false; mkProj 2%N (Some 3%N) OpSum false]
     (mkTable [1%N; 2%N] []) = Panic SRowsZero.
 Proof. vm_compute. reflexivity. Qed.
 Print Assumptions C11_empty_sum_refuted.
 
 (* GROUP BY the alias of a plain projection: empty sort configuration, c[0] panics with two rows (code as found) *)
 Theorem C11_alias_refuted :
-  project_and_group_by (mkFixes true false true) [4%N]
+  project_and_group_by (mkFixes true false true true) [4%N]
     [mkProj 1%N (Some 4%N) OpNone false; mkProj 2%N (Some 3%N) OpCount false]
     (mkTable [1%N; 2%N] [kv (txt "a"); kv (txt "b")]) = Panic SIndexSortConfig.
 Proof. vm_compute. reflexivity. Qed.
@@ -167,7 +167,7 @@ Definition fl25 : cell := CL (mkLit (VFloat (S754_finite false 5629499534213120 
                                 (list_byte_of_string """0000000000000000000000002.500000""^^type:float64")).
 Theorem C11_reduce_error_refuted :
   exists t out,
-    project_and_group_by (mkFixes true true false) [1%N]
+    project_and_group_by (mkFixes true true false true) [1%N]
       [mkProj 1%N None OpNone false; mkProj 2%N (Some 3%N) OpSum false] t = Ok out /\
     t_bindings out = [1%N; 2%N] /\ List.length (t_rows out) = 3%nat /\
     project_and_group_by fixes_all [1%N]
@@ -178,3 +178,20 @@ Proof.
   eexists. split; [vm_compute; reflexivity|]. split; [reflexivity|]. split; vm_compute; reflexivity.
 Qed.
 Print Assumptions C11_reduce_error_refuted.
+
+(* Projection with aliases (no GROUP BY), code as found: the aliases were written one after the other into the row the
+   next projection reads, so SELECT ?s AS ?o, ?o AS ?v returned the SUBJECT in both columns; after repair 0ca8278 every
+   output column holds the value its binding has in the solution. *)
+Theorem C11_alias_shadow_refuted :
+  exists t out_found out_fixed,
+    project_and_group_by (mkFixes true true true false) []
+      [mkProj 1%N (Some 2%N) OpNone false; mkProj 2%N (Some 3%N) OpNone false] t = Ok out_found /\
+    project_and_group_by fixes_all []
+      [mkProj 1%N (Some 2%N) OpNone false; mkProj 2%N (Some 3%N) OpNone false] t = Ok out_fixed /\
+    map (fun r => rget r 3%N) (t_rows out_found) = [Some (txt "subject")] /\
+    map (fun r => rget r 3%N) (t_rows out_fixed) = [Some (txt "object")].
+Proof.
+  exists (mkTable [1%N; 2%N] [ [(1%N, txt "subject"); (2%N, txt "object")] ]).
+  eexists. eexists. split; [vm_compute; reflexivity|]. split; [vm_compute; reflexivity|]. split; vm_compute; reflexivity.
+Qed.
+Print Assumptions C11_alias_shadow_refuted.
